@@ -21,7 +21,7 @@ NA = {
 CLAIMS = {
  "C20": dict(engine="ctrlsim", design="DESIGN.md §3 C20",
    technique="deterministic simulation: seeded loss/reject/reset histories against a reference automaton; driver loops under solver faults with step caps",
-   text="Seeded search over controller configurations and event histories (<=40 events incl. exactly-at-threshold, batched, reset, step-after-stop) checked step by step against a reference automaton written from the statement; bounded liveness of optimize/MPC/ICP loops under an injected failing solver. Evidence, not proof: the exhaustive small-alphabet enumeration the property mentions would be model checking.",
+   text="Seeded search over controller configurations and event histories (<=40 events incl. exactly-at-threshold, batched, reset, step-after-stop) checked step by step against a reference automaton written from the statement; bounded liveness of optimize/MPC/ICP loops under an injected failing solver, with the loss stream of the optimize driver evaluated by the harness (not read from the optimizer) and the optimisation continued by a fresh scheduler on the used optimizer. Evidence, not proof: the exhaustive small-alphabet enumeration the property mentions would be model checking.",
    note="Trusted: the reference automaton (30 lines), exact rational arithmetic for threshold decisions; events within 1e3 ulp of a threshold are skipped. StopOnPlateau has no reset(), so the reset clause is decided on ReduceToBason only."),
  "C16": dict(engine="imusim", design="DESIGN.md §3 C16",
    technique="deterministic simulation: one IMU stream fed under seeded fragmentation (chunk boundaries, ranks) against a sequential float64 reference recursion",
@@ -42,19 +42,19 @@ CLAIMS = {
  "C08": dict(engine="optsim", design="DESIGN.md §3 C08",
    technique="deterministic simulation: LM/GN step histories with a fault-injecting solver proxy (raise / negate / overshoot / zero / noise) and a recording strategy proxy, against a reference model of the accept/reject loop",
    text="Histories of <=30 step() calls on generated mixed-parameter models; at the solver seam a seeded fault plan decides honest/raise/negate/overshoot/zero/noise per solve; after every call the returned loss, cached loss, restored parameters, trial count and damping transitions are checked against a reference model fed only by what the seams observed.",
-   note="Trusted: harness loss (sum of kernel(|r|^2) from the model output, kernel objects trusted), float64 numpy for the step-quality ratio; the damping oracle abstains when the ratio is non-finite or within 1e-9 of a threshold."),
+   note="Trusted: harness loss (sum of kernel(|r|^2) from the model output, kernel objects trusted), float64 numpy for the step-quality ratio; without kernel and weight the residual handed to the strategy is compared with the harness's own; the damping oracle abstains when the ratio is non-finite or within 1e-9 of a threshold."),
  "C07": dict(engine="optsim", design="DESIGN.md §3 C07",
    technique="deterministic simulation at the solver/strategy seams: every linear system the simulated optimizer hands to the (proxied) solver is compared with a finite-difference reference, trial by trial over fault-driven histories",
-   text="Same simulated optimizer as C08 plus a wider fault-free configuration spread (all documented weight shapes, kernels/correctors, clamps that bite, vectorize on/off); each (A,b) seen by the solver proxy equals clampdiag(J^T W J)(1+lambda) / -J^T W R built from a Richardson finite-difference Jacobian in tangent coordinates; k-th-trial recurrence, GN system, honest-solve residual and the retraction update are checked.",
-   note="Trusted: finite-difference Jacobian of the real forward ops (float64, abstains when its own error estimate is too large), the configured corrector object (C09 is not claimed), numpy linear algebra. Adj/AdjT/Jinvp are excluded from the model family (their derivatives belong to C04)."),
+   text="Same simulated optimizer as C08 plus a wider fault-free configuration spread (all documented weight shapes, kernels/correctors, solvers incl. CG, clamps that bite, vectorize on/off, starts at / next to a zero residual, data refreshed between calls); each (A,b) seen by the solver proxy equals clampdiag(J^T W J)(1+lambda) / -J^T W R built from a Richardson finite-difference Jacobian in tangent coordinates; k-th-trial recurrence, GN system, honest-solve residual and the retraction update are checked.",
+   note="Trusted: finite-difference Jacobian of the real forward ops (float64, abstains when its own error estimate is too large), numpy linear algebra; FastTriggs (also the automatic corrector) is re-computed from closed-form kernel derivatives, the Triggs class is used as a trusted component (C09 is not claimed). The model family covers the documented operator set (Exp, Log, Inv, product, Act on 3- and 4-vectors, Adj, AdjT, Retr, +, matrix(), Jinvp); sim3/Sim3 are excluded where their Jacobians are documented as truncated series. Float64 only. CG steps are judged by CG's documented stopping rule. pypose's own se3/sim3 Exp round-off in the thin bands 0 < theta, |sigma| << 1 is allowed for in the update check (C01's subject)."),
  "C03": dict(engine="groupsim", design="DESIGN.md §3 C03",
    technique="deterministic simulation of long operation histories on one element against a float64 matrix reference model (no fault kind exists on this surface)",
    text="One batched element updated by up to 10^4 mixed @, Inv, add_, +, Retr operations; after every operation matrix(result) equals the reference matrix operation on matrix(operands), accessors equal matrix blocks, Act equals matrix multiplication (3- and 4-vectors incl. w=0), associativity and action-composition probes; unit-norm / positive-scale conservation with a bound linear in history length.",
    note="Trusted: numpy 3x3/4x4 matrix algebra and own scaling-and-squaring expm. Only the 'histories' part of the quantifier is what simulation adds; input-space coverage is what the walk visits."),
  "C06": dict(engine="patchsim", design="DESIGN.md §3 C06", level="fault_enumeration",
    technique="fault injection: exceptions raised by sys.settrace at enumerated/sampled line events inside retain_ltype / func.jacrev regions; identity check of the patched PyTorch internals after every operation; argument non-mutation monitor on the simulated API surface",
-   text="Decides the fault clause (patches undone when the wrapped function raises at any point: user-function raise at the j-th invocation incl. BaseException subclasses, injector raise at the k-th line event; nested, reused, has_aux and chunked wrappers; first use inside an active context) by identity comparison of every function of the torch modules pypose patches, and monitors argument non-mutation over ~70 public calls with contiguous and strided arguments and special values. The broadcasting / view-transparency clause is a pure input relation and is NOT decided.",
-   note="Trusted: identity (is) snapshot, taken at import, of all functions of torch.autograd.forward_ad, torch._functorch.{eager_transforms,vmap,apis,functional_call}, torch.autograd.functional and torch.func. Every run executes in a forked child; injection inside torch's own frames additionally in a child of that child, because an exception there can poison functorch state, which is torch's business. The non-mutation clause is a monitor over a fixed list of calls, not a sweep over all public functions."),
+   text="Decides the fault clause (patches undone when the wrapped function raises at any point: user-function raise at the j-th invocation incl. BaseException subclasses, injector raise at the k-th line event; nested, reused, has_aux and chunked wrappers; first use inside an active context) by identity comparison of every function of the torch modules pypose patches, and decides argument non-mutation by three monitors: ~35 LieTensor API calls and ~70 public helpers / composite calls with contiguous and strided arguments and special values, and a boundary monitor under which the workloads of the six other simulators run in a forked child with every public callable of pypose outside pypose.lietensor wrapped (tensors handed over by the simulated caller are compared with copies on return, at every later boundary call and at the end of the run). The broadcasting / view-transparency clause is a pure input relation and is NOT decided.",
+   note="Trusted: identity (is) snapshot, taken at import, of all functions of torch.autograd.forward_ad, torch._functorch.{eager_transforms,vmap,apis,functional_call}, torch.autograd.functional and torch.func. Every run executes in a forked child; injection inside torch's own frames additionally in a child of that child, because an exception there can poison functorch state, which is torch's business. The non-mutation clause is decided over the calls the lists and the other simulators' workloads make, not over all conceivable call sequences; nn.Parameter arguments and names ending in '_' are exempt."),
 }
 
 checks, na = [], []
@@ -92,7 +92,7 @@ m = {
              for n, p in sorted(engines.items())],
  "checks": checks,
  "not_applicable": na,
- "notes": "Technique family: deterministic simulation with fault injection. exit 0 = held, exit 1 = VIOLATION line with replay file (a minimised plan, plus a minimised process history when the violation needs earlier runs in the same process), exit 2 = harness error (nothing claimed). VERIF_SEED selects the seed family; VERIF_WORKERS the pool size; VERIF_REPO the tree under test. Twelve defects of pypose found here were repaired by fix: commits and are listed in known_findings.json with status 'fixed'; 108 independently seeded changes are kept under seeded/ (105 caught, 3 recorded as outside the statements).",
+ "notes": "Technique family: deterministic simulation with fault injection. exit 0 = held, exit 1 = VIOLATION line with replay file (a minimised plan, plus a minimised process history when the violation needs earlier runs in the same process), exit 2 = harness error (nothing claimed). VERIF_SEED selects the seed family; VERIF_WORKERS the pool size; VERIF_REPO the tree under test. Fourteen defects of pypose found here were repaired by fix: commits and are listed in known_findings.json with status 'fixed'; 204 independently seeded changes are kept under seeded/ (200 caught, 4 recorded as not caught with the reason in DESIGN.md 8.5).",
 }
 json.dump(m, open(os.path.join(HERE, "MANIFEST.json"), "w"), indent=1)
 print("MANIFEST.json: %d checks, %d not_applicable" % (len(checks), len(na)))
